@@ -106,6 +106,9 @@ def units(tier, seed):
         u.append({"kind": "copykey", "keys": ck[i:i + step], "n": COPY_VALUES[tier], "seed": seed})
     for j in range(RAND_UNITS[tier]):
         u.append({"kind": "copyrand", "idx": j, "n": RAND_PER_UNIT[tier], "seed": seed})
+    # M-FRAME ride-along on whatever lists real structure programs produce (C01's workload)
+    for j in range(16 if tier == "quick" else 240):
+        u.append({"kind": "ride", "idx": j, "n": 60, "seed": seed})
     return u
 
 
@@ -571,6 +574,60 @@ def run_case_b(vspec, mode, copy_idx, groups, res, shrink=True):
 # ------------------------------------------------------------------ units
 
 
+def run_ride(unit, res):
+    """Structure programs from C01's generator run through execute_vyxal with the argument guard
+    attached to every element function: no element may write into a list that came off a stack."""
+    import random
+
+    from lib import structrun
+    from lib.gen import struct as G
+    from lib.harness import short_hash
+    from lib.props.c01 import gen_case
+
+    if _guard is None:
+        _skip(res, "frame_monitor_unavailable")
+        return
+    structrun.install()
+    if "prog" in unit:
+        cases = [(unit["prog"], unit["inputs"], unit["flags"])]
+    else:
+        r = random.Random(f"C10/ride/{unit['seed']}/{unit['idx']}")
+        cases = [gen_case(r) for _ in range(unit["n"])]
+    for prog, inputs, flags in cases:
+        text, _toks = G.serialise(prog)
+        from lib.monitors import frame
+
+        frame.reset()
+        _guard.begin_case(None)
+        before = _guard.compared
+        got = structrun.run_impl(text, [repr(x) for x in inputs], flags, timeout=5, line_monitor=True)
+        events = _frame_events()
+        _guard.begin_case(None)
+        if got["error"] in ("watchdog", "MemoryError"):
+            _skip(res, "ride_" + got["error"])
+            continue
+        if _guard.compared == before:
+            _skip(res, "ride_no_list_argument")
+            continue
+        res["evals"] += 1
+        _count(res, "ride_programs")
+        _count(res, "ride_arguments_compared", _guard.compared - before)
+        res["keys"].append(short_hash(["ride", text, inputs]))
+        if events:
+            e = events[0]
+            if len(res["violations"]) < 20:
+                res["violations"].append({
+                    "mechanism": "writes-into-argument",
+                    "subject": e["function"] + "()",
+                    "how": "frame-" + e["kind"],
+                    "part": "ride",
+                    "what": (f"program {text!r} inputs={inputs}: {e['function']}() changed its {e['kind']} list argument "
+                             f"'{e['argument']}' in place: {e['before']!r} -> {e['after']!r}"),
+                    "frame_events": events[:4],
+                    "unit": {"kind": "ride", "prog": prog, "inputs": inputs, "flags": flags},
+                })
+
+
 def run_unit(unit):
     from lib.gen import elemcases as ec
 
@@ -654,6 +711,8 @@ def run_unit(unit):
                 _count(res, "copy_keys_compared")
             else:
                 _count(res, "copy_keys_never_compared")
+    elif kind == "ride":
+        run_ride(unit, res)
     elif kind == "copyrand":
         table = ec.element_table()
         keys = [k for k in table if k not in NEVER]
